@@ -312,11 +312,14 @@ theorem infoTlvIter_enc (pre : Bytes) (ts : List (Nat × Nat × Bytes)) (f : Nat
         omega
       have e6 : sliceFrom (be16 typ ++ be16 v.length ++ v) 4 = .ok v := by
         simp [sliceFrom, be16]
-      rw [e5, e6]
+      have e5' : rdBE (be16 typ ++ be16 v.length ++ v) 2 2 = .ok v.length := by
+        simp [rdBE, beAt, be16, beNat, UInt8.toNat_ofNat']
+        omega
+      rw [e5, e5', e6]
       dsimp only
       have := ih (pre ++ (be16 typ ++ be16 v.length ++ v)) f (by simp at hf; omega) (fun x hx => h x (by simp [hx]))
       simp only [List.append_assoc, List.length_append, be16_length] at this
-      have e7 : pre.length + v.length + 4 = pre.length + (2 + (2 + v.length)) := by omega
+      have e7 : pre.length + (v.length + 4) = pre.length + (2 + (2 + v.length)) := by omega
       simp only [List.append_assoc]
       rw [e7, this]
 
